@@ -182,10 +182,25 @@ fn process_file_into(
         {
             let grammar = parse_and_normalize_grammar(&session, &file_text)?;
             let buffer = emit_recursive_ascent(&session, &grammar, report_file)?;
-            let mut output_file = fs::File::create(rs_file)?;
-            writeln!(output_file, "{LALRPOP_VERSION_HEADER}")?;
-            writeln!(output_file, "{}", hash_file(lalrpop_file)?)?;
-            output_file.write_all(&buffer)?;
+
+            // Write to a temporary file beside the output and rename it into place: the
+            // version and hash lines come first, so a write that is interrupted or fails
+            // half-way must never leave them behind in `rs_file`, where the next build
+            // would take them as proof that the file is up to date.
+            let tmp_file = rs_file.with_extension("rs.tmp");
+            let written = (|| -> io::Result<()> {
+                let mut output_file = fs::File::create(&tmp_file)?;
+                writeln!(output_file, "{LALRPOP_VERSION_HEADER}")?;
+                writeln!(output_file, "{}", hash_file(lalrpop_file)?)?;
+                output_file.write_all(&buffer)?;
+                output_file.flush()?;
+                drop(output_file);
+                fs::rename(&tmp_file, rs_file)
+            })();
+            if let Err(e) = written {
+                let _ = fs::remove_file(&tmp_file);
+                return Err(e);
+            }
         }
     }
     Ok(())
